@@ -963,13 +963,33 @@ theorem receive_keeps_keys {E : Env} {now : Nat} {w : World} {from_ : Addr} {i :
     · omega
     · exact absurd hst (hng c h p)
 
-/-- a duplicate (an authentic datagram whose counter was already received) changes nothing either -/
-theorem duplicate_preserves_state {s : Session} {h : PacketHdr}
+/-- a duplicate (an authentic datagram whose counter was already received) changes nothing either;
+for a group data message on a group session the per-session window is not consulted at all — its
+authority is the group counter store (`group_data_skips_window`) -/
+theorem duplicate_preserves_state {s : Session} {h : PacketHdr} (hsc : s.storeChecked h.plain = false)
     (hd : (Dedup.postRecvPlain s.rx h.plain.ctr s.isEncrypted).2 = false) :
     s.postRecv h = (.error .Duplicate, s) := by
-  unfold Session.postRecv
-  simp [hd]
+  unfold Session.postRecv Session.windowStep
+  simp [hsc, hd]
 
+/-- **The per-session window is skipped for group data messages** (repo fix `efefeee`): `post_recv`
+of a group session leaves the receive window as it is for them and never answers `Duplicate` on
+account of it; control messages go through the window as before. -/
+theorem group_data_skips_window {s : Session} {h : PacketHdr} (hsc : s.storeChecked h.plain = true) :
+    (s.postRecv h).2.rx = s.rx := by
+  unfold Session.postRecv Session.windowStep
+  simp only [hsc, if_true, Bool.not_true, Bool.false_eq_true, if_false]
+  split
+  · split
+    · rfl
+    · split <;> rfl
+  · split
+    · rfl
+    · split
+      · rfl
+      · split
+        · split <;> rfl
+        · rfl
 
 /-! ## `handle_rx_packet`: the whole receive step -/
 
